@@ -17,7 +17,7 @@ THEOREMS = ['TexSoup.C18.' + n for n in (
     'Legacy.pop_differs_only_in_returned_object', 'Legacy.pop_agrees_on_plain_pool',
     'Legacy.insert_repaired_on_witness', 'all_holds_every_list_object', 'inv_survives_content_edit',
     'Legacy2.insert_misplaced_twin', 'Legacy2.remove_mutated_all_before_raising',
-    'extend_by_args_refines', 'stepPair_refines', 'runPair_refines')]
+    'extend_by_args_refines', 'extend_by_self_refines', 'stepPair_refines', 'runPair_refines')]
 PARTIAL = []
 TRUSTED = ['hand-written model of TexSoup.data.TexArgs (lean/TexSoupModel/Args.lean), tied to the code by the '
            'correspondence run only',
@@ -127,7 +127,8 @@ def correspondence(ctx):
                 'states (front insertion into a non-empty list, the same object twice, whitespace - on either '
                 'list) ALL sequences over the single-list operations on either list plus extend by a TexArgs '
                 "OBJECT (own slice `x:lo:hi`, the other list `y`/`o:y`), pool = unparsed '{a}', a shared object, "
-                'whitespace, indices -(n+1)..n+1; random histories up to 40 ops over both lists and %d items '
+                'whitespace, indices -(n+1)..n+1; the list itself `X` is in every alphabet; an implementation '
+                'operation that does not return within the watchdog answers HANG; random histories up to 40 ops over both lists and %d items '
                 '(twins at different positions, shared objects, TexCmd, TexNamedEnv, TexText, malformed strings) '
                 'including x/y; non-trivial = at least 2 ops including an insertion'
               % (len(A.PAIR_PREFIXES), len(A.RANDOM_ITEMS)))
@@ -165,6 +166,19 @@ class _Side(object):
 
 
 def _oracle_history(ops):
+    """`_oracle_steps` with the watchdog: an operation of the implementation that does not return within
+    lib_args.OP_TIME_LIMIT seconds is a failure of the history at that step (key `hang-<op>`)."""
+    cur = [0, '']
+    try:
+        return _oracle_steps(ops, cur)
+    except common.ImplHang:
+        A.HANG_SEEN[0] = True
+        step, op = cur
+        return ('hang-' + (op[2:] if op.startswith('o:') else op)[:1],
+                'step %d (%s): the implementation did not return within %d s' % (step, op, A.OP_TIME_LIMIT), step)
+
+
+def _oracle_steps(ops, cur):
     """C18 as stated, on the implementation alone: the .args of a command (and, for `o:`/`y`
     operations, of a second command) against plain Python lists holding the same group OBJECTS.
     Returns None or (key, what, step)."""
@@ -189,10 +203,20 @@ def _oracle_history(ops):
     def run(f):
         try:
             return None, f()
+        except common.ImplHang:
+            raise
         except Exception as e:      # noqa: the class is the observation
             return type(e), None
 
+    def watched(f):
+        """a call into the implementation, under the watchdog"""
+        def g():
+            with common.time_limit(A.OP_TIME_LIMIT):
+                return f()
+        return run(g)
+
     for step, op in enumerate(ops):
+        cur[0], cur[1] = step, op
         swapped = op.startswith('o:')
         me, you = (sides[1], sides[0]) if swapped else sides
         op1 = op[2:] if swapped else op
@@ -221,28 +245,33 @@ def _oracle_history(ops):
             x = item(rest)
             bad_string = plan(x)[0] == 'bad'
             want_exc = put(None, x)
-            got_exc, _ = run(lambda: args.append(x))
+            got_exc, _ = watched(lambda: args.append(x))
         elif k == 'i':
             i, _, w = rest.partition(':')
             x = item(w)
             bad_string = plan(x)[0] == 'bad'
             want_exc = put(int(i), x)
-            got_exc, _ = run(lambda: args.insert(int(i), x))
+            got_exc, _ = watched(lambda: args.insert(int(i), x))
         elif k == 'e':
             xs = [item(w) for w in rest.split(',')] if rest else []
             for x in xs:
                 want_exc = put(None, x)
                 if want_exc:
                     break
-            got_exc, _ = run(lambda: args.extend(xs))
+            got_exc, _ = watched(lambda: args.extend(xs))
         elif k == 'x':                              # extend by a TexArgs object: the list's own slice
             lo, _, hi = rest.partition(':')
             sl = slice(A._bound(lo), A._bound(hi))
             lst.extend(lst[sl])
-            got_exc, _ = run(lambda: args.extend(args[sl]))
+            got_exc, _ = watched(lambda: args.extend(args[sl]))
+        elif k == 'X':                              # extend by the list itself: a Python list doubles
+            lst.extend(lst)
+            if A.HANG_SEEN[0] and len(args) > 0:    # one time limit per process is enough
+                raise common.ImplHang('skipped after an earlier hang')
+            got_exc, _ = watched(lambda: args.extend(args))
         elif k == 'y':                              # extend by the other command's argument list
             lst.extend(you.lst)
-            got_exc, _ = run(lambda: args.extend(you.args))
+            got_exc, _ = watched(lambda: args.extend(you.args))
         elif k == 'r':
             x = item(rest)
             p = plan(x)
@@ -252,27 +281,27 @@ def _oracle_history(ops):
             else:
                 probe = p[1](p[2][1:-1]) if p[0] == 'new' else x
                 want_exc, _ = run(lambda: lst.remove(probe))
-            got_exc, _ = run(lambda: args.remove(x))
+            got_exc, _ = watched(lambda: args.remove(x))
         elif k == 'p':
             want_exc, want_val = run((lambda: lst.pop(int(rest))) if rest else (lambda: lst.pop()))
-            got_exc, got_val = run((lambda: args.pop(int(rest))) if rest else (lambda: args.pop()))
+            got_exc, got_val = watched((lambda: args.pop(int(rest))) if rest else (lambda: args.pop()))
         elif k == 'v':
             lst.reverse()
-            got_exc, _ = run(args.reverse)
+            got_exc, _ = watched(args.reverse)
         elif k == 'c':
             lst.clear()
-            got_exc, _ = run(args.clear)
+            got_exc, _ = watched(args.clear)
         elif k == 'g':
             want_exc, want_val = run(lambda: lst[int(rest)])
-            got_exc, got_val = run(lambda: args[int(rest)])
+            got_exc, got_val = watched(lambda: args[int(rest)])
         elif k == 's':
             lo, _, hi = rest.partition(':')
             sl = slice(A._bound(lo), A._bound(hi))
             want_exc, want_val = run(lambda: lst[sl])
-            got_exc, got_val = run(lambda: args[sl])
+            got_exc, got_val = watched(lambda: args[sl])
         elif k == 't':
             want_val = ''.join(str(g) for g in lst)
-            got_exc, got_val = run(lambda: str(args))
+            got_exc, got_val = watched(lambda: str(args))
         else:
             raise ValueError('bad op ' + op)
 
@@ -405,9 +434,9 @@ def oracle(ctx, seeds, scale):
               'ones of the correspondence (one list; two lists from start states with front insertions / the same '
               'object twice), random histories up to 40 ops over both lists and unparsed strings (good, malformed, '
               'whitespace), positioned twins and three shared objects that can be in a list twice.  Whitespace '
-              'strings are not arguments (list unchanged).  `args.extend(args)` itself is not exercised: on a '
-              'non-empty TexArgs it does not terminate (it iterates over the list it is growing; a Python list '
-              'doubles)')
+              'strings are not arguments (list unchanged).  `args.extend(args)` (op X) doubles the list like a '
+              'Python list; every call into the implementation runs under a %d s watchdog and a call that does '
+              'not return is a failure of the history (it used to loop for ever, F20)' % A.OP_TIME_LIMIT)
     r.exhaustive = True
     return r
 
